@@ -172,6 +172,34 @@ fn one(ctx: &mut Ctx, a: &Abs, well_formed: bool) {
     let desc = format!("ver={} flags={:#x} tiles={} maid={:?} mwmo={:?} modf={}", a.ver, a.flags, a.main.len(), a.maid.as_ref().map(|m| m.0), a.mwmo, a.modf.as_ref().map(|m| m.len() as i64).unwrap_or(-1));
     // model writes the same abstract file from payloads the harness built itself
     ctx.out.case(&format!("wdtwrite {} {} {} {} {} {}", a.ver, canon_rle(&mphd_bytes(a)), canon_rle(&main_bytes(a)), opt_rle(&maid_bytes(a)), names_str(&a.mwmo), opt_rle(&modf_bytes(a))), &canon_rle(&buf));
+    // fixed-layout payloads through the generic record codec of the model (Lib.Record): the object's field values, written with
+    // the layout's widths, are the payload bytes the writer produced
+    {
+        let chunk = |magic: &[u8; 4]| -> Option<&[u8]> { let mut p = 0usize; while p + 8 <= buf.len() { let sz = u32::from_le_bytes([buf[p + 4], buf[p + 5], buf[p + 6], buf[p + 7]]) as usize; if p + 8 + sz > buf.len() { return None; } if &buf[p..p + 4] == magic { return Some(&buf[p + 8..p + 8 + sz]); } p += 8 + sz; } None };
+        if let Some(pl) = chunk(b"DHPM") {
+            let mut vals: Vec<u32> = vec![w.mphd.flags.bits()];
+            if a.flags & 0x200 != 0 { for id in [w.mphd.lgt_file_data_id, w.mphd.occ_file_data_id, w.mphd.fogs_file_data_id, w.mphd.mpv_file_data_id, w.mphd.tex_file_data_id, w.mphd.wdl_file_data_id, w.mphd.pd4_file_data_id] { vals.push(id.unwrap_or(0)); } }
+            else { vals.push(w.mphd.something); vals.extend_from_slice(&w.mphd.unused); }
+            ctx.out.case(&format!("rec 4,4,4,4,4,4,4,4 {}", vals.iter().map(|v| v.to_string()).collect::<Vec<_>>().join(",")), &hex(pl));
+            ctx.out.stat("wdt.rec.mphd");
+        }
+        if let (Some(pl), Some(m)) = (chunk(b"FDOM"), w.modf.as_ref()) {
+            for (k, e) in m.entries.iter().enumerate().take(3) {
+                if (k + 1) * 64 > pl.len() { break; }
+                let mut vals: Vec<u64> = vec![e.id as u64, e.unique_id as u64];
+                for f in e.position.iter().chain(&e.rotation).chain(&e.lower_bounds).chain(&e.upper_bounds) { vals.push(f.to_bits() as u64); }
+                for h in [e.flags, e.doodad_set, e.name_set, e.scale] { vals.push(h as u64); }
+                ctx.out.case(&format!("rec 4,4,4,4,4,4,4,4,4,4,4,4,4,4,2,2,2,2 {}", vals.iter().map(|v| v.to_string()).collect::<Vec<_>>().join(",")), &hex(&pl[k * 64..k * 64 + 64]));
+                ctx.out.stat("wdt.rec.modf");
+            }
+        }
+        if let Some(pl) = chunk(b"NIAM") {
+            // three tiles of the grid: first, last, and one that is set (if any)
+            let mut picks = vec![(0usize, 0usize), (63, 63)]; if let Some(&(x, y, _, _)) = a.main.first() { picks.push((x, y)); }
+            for (x, y) in picks { let o = (y * 64 + x) * 8; if o + 8 > pl.len() { continue; } let e = w.main.get(x, y).copied().unwrap_or_default();
+                ctx.out.case(&format!("rec 4,4 {},{}", e.flags, e.area_id), &hex(&pl[o..o + 8])); ctx.out.stat("wdt.rec.main"); }
+        }
+    }
     let hint = ctx.rng.below(10) as usize;
     let parsed = WdtReader::new(Cursor::new(&buf), VERS[hint]).read();
     ctx.out.case(&format!("wdtread {} {}", hint, canon_rle(&buf)), &match &parsed { Ok(p) => format!("ok {}", view(p)), Err(e) => format!("err {}", err_kind(e)) });
